@@ -169,6 +169,8 @@ def run(ctx, res):
     )
     cf = run_confinement(ctx)
     hs = handlers_of(ctx, lambda t: t[0] in BODY and t[1] in BODY)
+    from .c04 import report_binding_slips
+    ctx.require(res, "R3.9", report_binding_slips(ctx, res, "R3.9", hs), 2, "handlers bound by the dispatcher")
     from ..confinement import numeric_rejections
     res.count("numeric rejections", numeric_rejections(ctx, res, "R3.4", hs, "body x body handlers"))
     # R3.5 vertices / faces found from both sides are merged by the objects' tolerant equality, never by raw coordinates
@@ -184,4 +186,16 @@ def run(ctx, res):
     res.count("return sites", total)
     r32(ctx, res)
     r33(ctx, res)
+    # R3.6 the collinearity helper that guards the coplanar polygon / polygon routine tests every point (coverage.py)
+    from ..coverage import check_collinearity_helper
+    kc = check_collinearity_helper(ctx, res, "R3.6")
+    ctx.require(res, "R3.6", kc, 2, "return sites of points_in_a_line")
+    # R3.8 the handlers' internal sanity raises ('Bug detected') are unreachable: by the E1 types of the value switched on,
+    # by an equality the callee already decided, propositionally, or by the number of add sites (the analysis of C04 R4.7)
+    from .c04 import r47
+    r47(ctx, res, scope=list(hs), rule="R3.8", need=2)
+    # R3.7 the linear solver picks its pivot row by the pivot column (coverage.py)
+    from ..coverage import check_pivot_choice
+    kp = check_pivot_choice(ctx, res, "R3.7")
+    ctx.require(res, "R3.7", kp, 2, "row elements read by find_pivot_row")
     res.undecided_ob("the collected vertex set is the true vertex set; Euler reassembly; dedup of faces by hash; measures")
